@@ -1416,7 +1416,7 @@ class Gen:
             gap = bytes(r.below(256) for _ in range(max(0, start - 8 * fx[0])))
             if fx[1] == 0 and r.chance(1, 3):
                 gap = b""                                   # a base record may end before record_start_size: it has no strings to read
-            strings = [bytes(z for z in self.bstr(bad == 3) if z != 0) for _ in range(fx[1])]
+            strings = [bytes(z for z in self.bstr(bad != 3) if z != 0) for _ in range(fx[1])]
             trail = bytes(r.below(256) for _ in range(r.choice([0, 0, 1, 9])))
             recs.append({"ints": ints, "gap": gap, "strings": strings, "trail": trail,
                          "nonul": 1 if (bad == 4 and fx[1] and k == n - 1) else 0, "oob": 1 if (bad == 5 and r.chance(1, 2)) else 0})
